@@ -6,6 +6,7 @@
 package tl
 
 import (
+	"crypto/rand"
 	"math/big"
 
 	"github.com/xelaj/go-dry"
@@ -25,7 +26,7 @@ func NewInt128() *Int128 {
 // NewInt128 creates int128 with random value
 func RandomInt128() *Int128 {
 	i := &Int128{Int: big.NewInt(0)}
-	i.SetBytes(dry.RandomBytes(Int128Len))
+	i.SetBytes(randomBytes(Int128Len))
 	return i
 }
 
@@ -66,7 +67,7 @@ func NewInt256() *Int256 {
 // NewInt256 creates int256 with random value
 func RandomInt256() *Int256 {
 	i := &Int256{big.NewInt(0)}
-	i.SetBytes(dry.RandomBytes(Int256Len))
+	i.SetBytes(randomBytes(Int256Len))
 	return i
 }
 
@@ -91,4 +92,14 @@ func (i *Int256) UnmarshalTL(d *Decoder) error {
 	}
 	i.Int = big.NewInt(0).SetBytes(val)
 	return nil
+}
+
+// randomBytes returns bytes from cryptographic random source of system: nonces are secrets of key exchange,
+// so they can't be taken from math/rand (which is reproducible)
+func randomBytes(size int) []byte {
+	b := make([]byte, size)
+	if _, err := rand.Read(b); err != nil {
+		panic(err)
+	}
+	return b
 }
